@@ -1,8 +1,884 @@
-//! C04 task and join-handle lifecycle (Miri + native) — not built yet.
+//! C04 — task and join-handle lifecycle, on the REAL `compio-executor`.
+//!
+//! Everything is observed at the public boundary (no hooks):
+//!
+//! * `ProbeFut` — the spawned future. Every poll records (thread, n-th poll,
+//!   tick number, "already finished?", "already dropped?"), its `Drop` records
+//!   thread and count. Scripted behaviour: finish at the k-th poll, panic at
+//!   the k-th poll (payload carries the task id and a drop probe), self-wake,
+//!   wake a peer, spawn a child, drop a (peer's or its own) `JoinHandle`.
+//! * `Out<M>` — the output: task id + `DropProbe` (counted drops, thread).
+//!   `M = LocalM` makes it `!Send` (a foreign-thread drop of it is recorded).
+//! * join results are compared with what the task did.
+//!
+//! Oracles (see `finish_accounting` + the two drivers):
+//!   poll only on the home thread, never after Ready/panic, after the cancel
+//!   became visible, or after drop; future dropped exactly once, at home;
+//!   output/payload observed by the handle XOR dropped exactly once;
+//!   join result consistent; handle drop cancels; detach completes; a panic
+//!   does not change the other tasks' traces (differential run); FIFO
+//!   starvation bound; teardown with wakers elsewhere.
+//!
+//! All cross-thread bookkeeping is `Relaxed` atomics (adds no happens-before
+//! that could hide a race of the executor from Miri/TSan); hand-overs use
+//! thread spawn/join.
+//!
+//! `c04_st.rs` = seeded single-thread programs (exact model), `c04_xt.rs` =
+//! cross-thread programs (1–3 foreign threads racing tick / executor drop).
 
-use vcommon::Args;
+#[path = "c04_st.rs"]
+mod st;
+#[path = "c04_xt.rs"]
+mod xt;
 
-pub fn main(_args: &Args) {
-    eprintln!("c04: not implemented");
-    std::process::exit(3);
+use std::{
+    any::Any,
+    cell::{Cell, RefCell},
+    future::Future,
+    marker::PhantomData,
+    mem::ManuallyDrop,
+    pin::Pin,
+    rc::{Rc, Weak},
+    sync::{
+        Arc, Mutex,
+        atomic::{AtomicU64, Ordering::*},
+    },
+    task::{Context, Poll, Wake, Waker},
+};
+
+use compio_executor::{Executor, JoinError, JoinHandle};
+use vcommon::{Args, Report, Rng, Value, json};
+
+// ---------------------------------------------------------------------------
+// thread identity without std's ThreadId (cheap, Miri-friendly)
+// ---------------------------------------------------------------------------
+
+static NEXT_TID: AtomicU64 = AtomicU64::new(1);
+thread_local! {
+    static TID: Cell<u64> = const { Cell::new(0) };
+}
+
+pub(crate) fn tid() -> u64 {
+    TID.with(|t| {
+        if t.get() == 0 {
+            t.set(NEXT_TID.fetch_add(1, Relaxed));
+        }
+        t.get()
+    })
+}
+
+// ---------------------------------------------------------------------------
+// records
+// ---------------------------------------------------------------------------
+
+/// Output or panic payload of one task.
+#[derive(Default)]
+pub(crate) struct ObjRec {
+    pub created: AtomicU64,
+    pub drops: AtomicU64,
+    /// dropped on a thread other than home
+    pub foreign_drops: AtomicU64,
+    /// `!Send` object dropped on a foreign thread
+    pub nonsend_foreign_drops: AtomicU64,
+    /// handed to the harness through a JoinHandle
+    pub taken: AtomicU64,
+}
+
+pub(crate) struct TaskRec {
+    pub id: usize,
+    pub home: u64,
+    pub polls: AtomicU64,
+    pub foreign_polls: AtomicU64,
+    pub polls_after_finish: AtomicU64,
+    pub polls_after_drop: AtomicU64,
+    /// 0 running, 1 returned Ready, 2 panicked
+    pub finished: AtomicU64,
+    pub fut_drops: AtomicU64,
+    pub fut_foreign_drops: AtomicU64,
+    pub last_poll_tick: AtomicU64,
+    pub drop_tick: AtomicU64,
+    /// starvation monitor: tick by which the task has to be polled/dropped (0 = none)
+    pub due_tick: AtomicU64,
+    pub due_set_at: AtomicU64,
+    pub due_l: AtomicU64,
+    /// worst lateness (ticks beyond the bound), and best slack
+    pub late_by: AtomicU64,
+    /// `polls` when a remote cancel / handle drop returned (+1), 0 = none
+    pub cancel_snapshot: AtomicU64,
+    pub obj: ObjRec,
+}
+
+impl TaskRec {
+    pub fn new(id: usize, home: u64) -> Arc<Self> {
+        Arc::new(Self {
+            id,
+            home,
+            polls: AtomicU64::new(0),
+            foreign_polls: AtomicU64::new(0),
+            polls_after_finish: AtomicU64::new(0),
+            polls_after_drop: AtomicU64::new(0),
+            finished: AtomicU64::new(0),
+            fut_drops: AtomicU64::new(0),
+            fut_foreign_drops: AtomicU64::new(0),
+            last_poll_tick: AtomicU64::new(0),
+            drop_tick: AtomicU64::new(0),
+            due_tick: AtomicU64::new(0),
+            due_set_at: AtomicU64::new(0),
+            due_l: AtomicU64::new(0),
+            late_by: AtomicU64::new(0),
+            cancel_snapshot: AtomicU64::new(0),
+            obj: ObjRec::default(),
+        })
+    }
+
+    pub fn alive(&self) -> bool {
+        self.finished.load(Relaxed) == 0 && self.fut_drops.load(Relaxed) == 0
+    }
+}
+
+/// Shared by all threads of one program.
+pub(crate) struct World {
+    pub home: u64,
+    /// number of ticks started by the home thread
+    pub tick: AtomicU64,
+    pub max_interval: u64,
+    /// min over all resolved dues of (bound - actual) — 0 shows the bound is tight
+    pub min_slack: AtomicU64,
+    /// single-thread programs only: (tick, task, n-th poll) in order
+    pub trace: Option<Mutex<Vec<(u64, usize, u64)>>>,
+    pub home_done: AtomicU64,
+    pub threads_done: AtomicU64,
+    pub exec_dropped: AtomicU64,
+    /// owner-waker callback: calls and yields inside
+    pub owner_calls: AtomicU64,
+    pub owner_slow: u32,
+}
+
+impl World {
+    pub fn new(max_interval: u32, trace: bool, owner_slow: u32) -> Arc<Self> {
+        Arc::new(Self {
+            home: tid(),
+            tick: AtomicU64::new(0),
+            max_interval: max_interval as u64,
+            min_slack: AtomicU64::new(u64::MAX),
+            trace: trace.then(|| Mutex::new(Vec::new())),
+            home_done: AtomicU64::new(0),
+            threads_done: AtomicU64::new(0),
+            exec_dropped: AtomicU64::new(0),
+            owner_calls: AtomicU64::new(0),
+            owner_slow,
+        })
+    }
+}
+
+pub(crate) struct OwnerWaker(pub Arc<World>);
+
+impl Wake for OwnerWaker {
+    fn wake(self: Arc<Self>) {
+        self.wake_by_ref()
+    }
+
+    fn wake_by_ref(self: &Arc<Self>) {
+        self.0.owner_calls.fetch_add(1, Relaxed);
+        // a slow notification (eventfd write + descheduling) on foreign threads
+        if tid() != self.0.home {
+            for _ in 0..self.0.owner_slow {
+                std::thread::yield_now();
+            }
+        }
+    }
+}
+
+// ---------------------------------------------------------------------------
+// output / payload
+// ---------------------------------------------------------------------------
+
+pub(crate) struct SendM;
+pub(crate) struct LocalM(#[allow(dead_code)] *const ());
+
+pub(crate) trait Marker: 'static {
+    const SEND: bool;
+}
+impl Marker for SendM {
+    const SEND: bool = true;
+}
+impl Marker for LocalM {
+    const SEND: bool = false;
+}
+
+pub(crate) struct DropProbe {
+    rec: Arc<TaskRec>,
+    send: bool,
+}
+
+impl DropProbe {
+    fn new(rec: &Arc<TaskRec>, send: bool) -> Self {
+        rec.obj.created.fetch_add(1, Relaxed);
+        Self { rec: rec.clone(), send }
+    }
+}
+
+impl Drop for DropProbe {
+    fn drop(&mut self) {
+        let o = &self.rec.obj;
+        o.drops.fetch_add(1, Relaxed);
+        if tid() != self.rec.home {
+            o.foreign_drops.fetch_add(1, Relaxed);
+            if !self.send {
+                o.nonsend_foreign_drops.fetch_add(1, Relaxed);
+            }
+        }
+    }
+}
+
+pub(crate) struct Out<M: Marker> {
+    pub id: usize,
+    #[allow(dead_code)]
+    probe: DropProbe,
+    _m: PhantomData<M>,
+}
+
+// SAFETY: nothing in `Out` is thread-bound; `LocalM` deliberately keeps the
+// auto trait off for that instantiation only.
+unsafe impl Send for Out<SendM> {}
+
+pub(crate) struct PanicPayload {
+    pub id: usize,
+    #[allow(dead_code)]
+    probe: DropProbe,
+}
+
+// ---------------------------------------------------------------------------
+// behaviour of a task
+// ---------------------------------------------------------------------------
+
+#[derive(Clone, Debug, Default)]
+pub(crate) struct Beh {
+    /// return Ready at this poll (1-based); 0 = never
+    pub ready_at: u32,
+    /// panic at this poll; 0 = never
+    pub panic_at: u32,
+    /// on Pending: 0 none, 1 wake_by_ref, 2 clone().wake()
+    pub self_wake: u8,
+    /// wake this task's stored waker on every Pending poll
+    pub wake_peer: Option<usize>,
+    /// (poll number, behaviour of the child is fixed: self-waking, ready at 2)
+    pub spawn_child_at: u32,
+    /// (poll number, task index) drop that task's JoinHandle from inside poll
+    pub drop_handle_at: Option<(u32, usize)>,
+    /// output type is Send (handle may travel)
+    pub send: bool,
+}
+
+impl Beh {
+    pub fn to_json(&self) -> Value {
+        json!({"ready_at": self.ready_at, "panic_at": self.panic_at, "self_wake": self.self_wake,
+               "wake_peer": self.wake_peer, "spawn_child_at": self.spawn_child_at,
+               "drop_handle_at": self.drop_handle_at.map(|(a, b)| vec![a as u64, b as u64]), "send": self.send})
+    }
+
+    pub fn from_json(v: &Value) -> Option<Self> {
+        Some(Self {
+            ready_at: v["ready_at"].as_u64()? as u32,
+            panic_at: v["panic_at"].as_u64()? as u32,
+            self_wake: v["self_wake"].as_u64()? as u8,
+            wake_peer: v["wake_peer"].as_u64().map(|x| x as usize),
+            spawn_child_at: v["spawn_child_at"].as_u64().unwrap_or(0) as u32,
+            drop_handle_at: v["drop_handle_at"]
+                .as_array()
+                .and_then(|a| Some((a.first()?.as_u64()? as u32, a.get(1)?.as_u64()? as usize))),
+            send: v["send"].as_bool().unwrap_or(true),
+        })
+    }
+
+    /// The same task without its panic (differential run).
+    pub fn without_panic(&self) -> Self {
+        let mut b = self.clone();
+        if b.panic_at != 0 {
+            b.ready_at = if b.ready_at != 0 { b.ready_at.min(b.panic_at) } else { b.panic_at };
+            b.panic_at = 0;
+        }
+        b
+    }
+
+    pub fn kind(&self) -> &'static str {
+        if self.panic_at != 0 && (self.ready_at == 0 || self.panic_at <= self.ready_at) {
+            "panic"
+        } else if self.ready_at != 0 {
+            "ready"
+        } else {
+            "forever"
+        }
+    }
+}
+
+// ---------------------------------------------------------------------------
+// home-thread environment of one program
+// ---------------------------------------------------------------------------
+
+pub(crate) enum H {
+    S(JoinHandle<Out<SendM>>),
+    L(JoinHandle<Out<LocalM>>),
+}
+
+/// What a join produced, already checked against the task's identity.
+#[derive(Clone, Debug, PartialEq, Eq)]
+pub(crate) enum Joined {
+    Ok,
+    Panicked,
+    Cancelled,
+    Pending,
+}
+
+impl Joined {
+    pub fn name(&self) -> &'static str {
+        match self {
+            Joined::Ok => "ok",
+            Joined::Panicked => "panicked",
+            Joined::Cancelled => "cancelled",
+            Joined::Pending => "pending",
+        }
+    }
+}
+
+/// Check a join result against the task it belongs to. Returns the class and
+/// records identity problems in `bad`.
+pub(crate) fn classify_join<M: Marker>(
+    rec: &TaskRec,
+    r: Result<Out<M>, JoinError>,
+    bad: &mut Vec<(String, String)>,
+    via: &str,
+) -> Joined {
+    match r {
+        Ok(out) => {
+            let taken = rec.obj.taken.fetch_add(1, Relaxed);
+            if out.id != rec.id {
+                bad.push((
+                    format!("C04/join-result/foreign-output/{via}"),
+                    format!("handle of task {} produced the output of task {}", rec.id, out.id),
+                ));
+            }
+            if rec.finished.load(Relaxed) != 1 {
+                bad.push((
+                    format!("C04/join-result/ok-without-completion/{via}"),
+                    format!("task {} joined Ok but never returned Ready", rec.id),
+                ));
+            }
+            if taken != 0 {
+                bad.push((format!("C04/output/observed-twice/{via}"), format!("task {}: output handed out twice", rec.id)));
+            }
+            drop(out);
+            Joined::Ok
+        }
+        Err(JoinError::Panicked(p)) => {
+            let taken = rec.obj.taken.fetch_add(1, Relaxed);
+            match p.downcast::<PanicPayload>() {
+                Ok(pp) => {
+                    if pp.id != rec.id {
+                        bad.push((
+                            format!("C04/join-result/foreign-panic/{via}"),
+                            format!("handle of task {} produced the panic of task {}", rec.id, pp.id),
+                        ));
+                    }
+                }
+                Err(other) => {
+                    let msg = other
+                        .downcast_ref::<&str>()
+                        .map(|s| s.to_string())
+                        .or_else(|| other.downcast_ref::<String>().cloned())
+                        .unwrap_or_else(|| "<unknown payload>".into());
+                    bad.push((
+                        format!("C04/join-result/unexpected-panic-payload/{via}"),
+                        format!("task {}: payload is not the task's own: {msg}", rec.id),
+                    ));
+                }
+            }
+            if rec.finished.load(Relaxed) != 2 {
+                bad.push((
+                    format!("C04/join-result/panicked-without-panic/{via}"),
+                    format!("task {} joined Panicked but did not panic", rec.id),
+                ));
+            }
+            if taken != 0 {
+                bad.push((format!("C04/output/observed-twice/{via}"), format!("task {}: payload handed out twice", rec.id)));
+            }
+            Joined::Panicked
+        }
+        Err(JoinError::Cancelled) => Joined::Cancelled,
+    }
+}
+
+impl H {
+    pub fn poll(&mut self, rec: &TaskRec, w: &Waker, bad: &mut Vec<(String, String)>, via: &str) -> Joined {
+        let mut cx = Context::from_waker(w);
+        match self {
+            H::S(h) => match Pin::new(h).poll(&mut cx) {
+                Poll::Ready(r) => classify_join(rec, r, bad, via),
+                Poll::Pending => Joined::Pending,
+            },
+            H::L(h) => match Pin::new(h).poll(&mut cx) {
+                Poll::Ready(r) => classify_join(rec, r, bad, via),
+                Poll::Pending => Joined::Pending,
+            },
+        }
+    }
+
+    pub fn is_finished(&self) -> bool {
+        match self {
+            H::S(h) => h.is_finished(),
+            H::L(h) => h.is_finished(),
+        }
+    }
+
+    pub fn detach(self) {
+        match self {
+            H::S(h) => h.detach(),
+            H::L(h) => h.detach(),
+        }
+    }
+
+    /// `handle.cancel().await` driven by `drive` between polls. `None` = the
+    /// cancel future stayed Pending for `max` polls.
+    pub fn cancel(
+        self,
+        rec: &TaskRec,
+        bad: &mut Vec<(String, String)>,
+        via: &str,
+        max: usize,
+        mut drive: impl FnMut(),
+    ) -> Option<Joined> {
+        fn run<M: Marker>(
+            h: JoinHandle<Out<M>>,
+            rec: &TaskRec,
+            bad: &mut Vec<(String, String)>,
+            via: &str,
+            max: usize,
+            drive: &mut dyn FnMut(),
+        ) -> Option<Joined> {
+            let mut f = Box::pin(h.cancel());
+            let w = Waker::noop();
+            let mut cx = Context::from_waker(w);
+            for _ in 0..max {
+                match f.as_mut().poll(&mut cx) {
+                    Poll::Ready(Some(out)) => return Some(classify_join(rec, Ok(out), bad, via)),
+                    Poll::Ready(None) => return Some(Joined::Cancelled),
+                    Poll::Pending => drive(),
+                }
+            }
+            None
+        }
+        match self {
+            H::S(h) => run(h, rec, bad, via, max, &mut drive),
+            H::L(h) => run(h, rec, bad, via, max, &mut drive),
+        }
+    }
+}
+
+pub(crate) struct Env {
+    pub w: Arc<World>,
+    pub exe: RefCell<Weak<Executor>>,
+    pub recs: RefCell<Vec<Arc<TaskRec>>>,
+    pub behs: RefCell<Vec<Beh>>,
+    pub wakers: RefCell<Vec<Option<Waker>>>,
+    pub handles: RefCell<Vec<Option<H>>>,
+    /// futures spawned and not yet dropped
+    pub alive: Cell<u64>,
+    /// violations noticed from inside polls
+    pub bad: RefCell<Vec<(String, String)>>,
+    pub no_panics: bool,
+}
+
+impl Env {
+    pub fn new(w: Arc<World>, no_panics: bool) -> Rc<Self> {
+        Rc::new(Self {
+            w,
+            exe: RefCell::new(Weak::new()),
+            recs: RefCell::new(Vec::new()),
+            behs: RefCell::new(Vec::new()),
+            wakers: RefCell::new(Vec::new()),
+            handles: RefCell::new(Vec::new()),
+            alive: Cell::new(0),
+            bad: RefCell::new(Vec::new()),
+            no_panics,
+        })
+    }
+
+    /// Spawn a probe task; returns its index.
+    pub fn spawn(self: &Rc<Self>, exe: &Executor, beh: Beh) -> usize {
+        let beh = if self.no_panics { beh.without_panic() } else { beh };
+        let id = self.recs.borrow().len();
+        let rec = TaskRec::new(id, self.w.home);
+        self.recs.borrow_mut().push(rec.clone());
+        self.behs.borrow_mut().push(beh.clone());
+        self.wakers.borrow_mut().push(None);
+        self.handles.borrow_mut().push(None);
+        self.alive.set(self.alive.get() + 1);
+        // spawning makes the task hot: it is due like a woken one
+        self.note_hot(&rec);
+        let h = if beh.send {
+            H::S(exe.spawn(ProbeFut::<SendM>::new(rec, self.clone(), beh)))
+        } else {
+            H::L(exe.spawn(ProbeFut::<LocalM>::new(rec, self.clone(), beh)))
+        };
+        self.handles.borrow_mut()[id] = Some(h);
+        id
+    }
+
+    /// FIFO bound. A task made hot while `L` other tasks are alive has at most
+    /// `L` tasks ahead of it in the hot list; every tick runs `max_interval`
+    /// tasks from the head (or the whole list); so it is polled (or, if
+    /// cancelled, dropped) in a tick numbered at most
+    /// `ticks_started_at_wake + 1 + floor(L / max_interval)`.
+    pub fn note_hot(&self, rec: &TaskRec) {
+        if self.w.exec_dropped.load(Relaxed) != 0 || rec.fut_drops.load(Relaxed) != 0 {
+            return;
+        }
+        if rec.due_tick.load(Relaxed) != 0 {
+            return; // already hot: keeps its place
+        }
+        let l = self.alive.get().saturating_sub(1);
+        let now = self.w.tick.load(Relaxed);
+        rec.due_l.store(l, Relaxed);
+        rec.due_set_at.store(now, Relaxed);
+        rec.due_tick.store(now + 1 + l / self.w.max_interval, Relaxed);
+    }
+
+    /// The task was polled or dropped in tick `now`: settle its due.
+    fn settle_due(&self, rec: &TaskRec) {
+        let due = rec.due_tick.swap(0, Relaxed);
+        if due == 0 {
+            return;
+        }
+        let now = self.w.tick.load(Relaxed);
+        if now > due {
+            rec.late_by.fetch_max(now - due, Relaxed);
+        } else {
+            self.w.min_slack.fetch_min(due - now, Relaxed);
+        }
+    }
+
+    pub fn wake_task(&self, idx: usize, consume: bool) -> bool {
+        let w = self.wakers.borrow().get(idx).cloned().flatten();
+        let Some(w) = w else { return false };
+        let rec = self.recs.borrow()[idx].clone();
+        if rec.alive() {
+            self.note_hot(&rec);
+        }
+        if consume { w.wake() } else { w.wake_by_ref() }
+        true
+    }
+}
+
+// ---------------------------------------------------------------------------
+// the probe future
+// ---------------------------------------------------------------------------
+
+pub(crate) struct ProbeFut<M: Marker> {
+    rec: Arc<TaskRec>,
+    env: ManuallyDrop<Rc<Env>>,
+    beh: Beh,
+    n: u32,
+    _m: PhantomData<M>,
+}
+
+impl<M: Marker> ProbeFut<M> {
+    fn new(rec: Arc<TaskRec>, env: Rc<Env>, beh: Beh) -> Self {
+        Self {
+            rec,
+            env: ManuallyDrop::new(env),
+            beh,
+            n: 0,
+            _m: PhantomData,
+        }
+    }
+}
+
+impl<M: Marker> Unpin for ProbeFut<M> {}
+
+impl<M: Marker> Future for ProbeFut<M> {
+    type Output = Out<M>;
+
+    fn poll(mut self: Pin<&mut Self>, cx: &mut Context<'_>) -> Poll<Out<M>> {
+        let rec = self.rec.clone();
+        let n = rec.polls.fetch_add(1, Relaxed) + 1;
+        if tid() != rec.home {
+            // do not touch the Rc environment from a foreign thread
+            rec.foreign_polls.fetch_add(1, Relaxed);
+            return Poll::Pending;
+        }
+        if rec.finished.load(Relaxed) != 0 {
+            rec.polls_after_finish.fetch_add(1, Relaxed);
+            return Poll::Pending;
+        }
+        if rec.fut_drops.load(Relaxed) != 0 {
+            rec.polls_after_drop.fetch_add(1, Relaxed);
+            return Poll::Pending;
+        }
+        self.n += 1;
+        let k = self.n;
+        let env: Rc<Env> = (*self.env).clone();
+        let now = env.w.tick.load(Relaxed);
+        rec.last_poll_tick.store(now, Relaxed);
+        env.settle_due(&rec);
+        if let Some(t) = &env.w.trace {
+            t.lock().unwrap().push((now, rec.id, n));
+        }
+        // always keep the latest waker where the driver (and peers) find it
+        {
+            let mut ws = env.wakers.borrow_mut();
+            if ws[rec.id].as_ref().is_none_or(|w| !w.will_wake(cx.waker())) {
+                ws[rec.id] = Some(cx.waker().clone());
+            }
+        }
+        let beh = self.beh.clone();
+        if beh.spawn_child_at == k
+            && let Some(exe) = env.exe.borrow().upgrade()
+        {
+            env.spawn(
+                &exe,
+                Beh {
+                    ready_at: 2,
+                    self_wake: 1,
+                    send: beh.send,
+                    ..Beh::default()
+                },
+            );
+        }
+        if let Some((at, victim)) = beh.drop_handle_at
+            && at == k
+        {
+            let h = env.handles.borrow_mut().get_mut(victim).and_then(|h| h.take());
+            if let Some(h) = h {
+                let vrec = env.recs.borrow()[victim].clone();
+                if vrec.alive() {
+                    // cancel = schedule + mark: the victim is hot now and must
+                    // be dropped within the FIFO bound
+                    env.note_hot(&vrec);
+                    vrec.cancel_snapshot.store(vrec.polls.load(Relaxed) + 1, Relaxed);
+                }
+                drop(h);
+            }
+        }
+        if beh.panic_at == k {
+            rec.finished.store(2, Relaxed);
+            let payload = PanicPayload {
+                id: rec.id,
+                probe: DropProbe::new(&rec, true),
+            };
+            drop(env);
+            std::panic::panic_any(payload);
+        }
+        if beh.ready_at == k {
+            rec.finished.store(1, Relaxed);
+            return Poll::Ready(Out {
+                id: rec.id,
+                probe: DropProbe::new(&rec, M::SEND),
+                _m: PhantomData,
+            });
+        }
+        if let Some(p) = beh.wake_peer {
+            env.wake_task(p, false);
+        }
+        match beh.self_wake {
+            1 => {
+                env.note_hot(&rec);
+                cx.waker().wake_by_ref();
+            }
+            2 => {
+                env.note_hot(&rec);
+                cx.waker().clone().wake();
+            }
+            _ => {}
+        }
+        Poll::Pending
+    }
+}
+
+impl<M: Marker> Drop for ProbeFut<M> {
+    fn drop(&mut self) {
+        let rec = &self.rec;
+        rec.fut_drops.fetch_add(1, Relaxed);
+        if tid() != rec.home {
+            rec.fut_foreign_drops.fetch_add(1, Relaxed);
+            // leave the Rc alone on a foreign thread
+            return;
+        }
+        let env = unsafe { ManuallyDrop::take(&mut self.env) };
+        rec.drop_tick.store(env.w.tick.load(Relaxed), Relaxed);
+        env.alive.set(env.alive.get().saturating_sub(1));
+        if rec.finished.load(Relaxed) == 0 {
+            // dropped instead of polled (cancelled): that settles the due too
+            env.settle_due(rec);
+        } else {
+            rec.due_tick.store(0, Relaxed);
+        }
+    }
+}
+
+// ---------------------------------------------------------------------------
+// final accounting, common to both drivers
+// ---------------------------------------------------------------------------
+
+/// To be called when the executor is gone, every handle/waker the harness
+/// held is dropped and all foreign threads are joined.
+pub(crate) fn finish_accounting(env: &Env, shape: &str, bad: &mut Vec<(String, String)>) {
+    bad.append(&mut env.bad.borrow_mut());
+    for rec in env.recs.borrow().iter() {
+        let id = rec.id;
+        let g = |a: &AtomicU64| a.load(SeqCst);
+        if g(&rec.foreign_polls) != 0 {
+            bad.push((format!("C04/poll/off-home-thread/{shape}"), format!("task {id} polled on a foreign thread")));
+        }
+        if g(&rec.polls_after_finish) != 0 {
+            bad.push((format!("C04/poll/after-finish/{shape}"), format!("task {id} polled after it returned Ready / panicked")));
+        }
+        if g(&rec.polls_after_drop) != 0 {
+            bad.push((format!("C04/poll/after-drop/{shape}"), format!("task {id} polled after its future was dropped")));
+        }
+        match g(&rec.fut_drops) {
+            1 => {}
+            0 => bad.push((
+                format!("C04/future-drop/never/{shape}"),
+                format!("task {id}: future not dropped although the executor is gone"),
+            )),
+            n => bad.push((format!("C04/future-drop/multiple/{shape}"), format!("task {id}: future dropped {n} times"))),
+        }
+        if g(&rec.fut_foreign_drops) != 0 {
+            bad.push((format!("C04/future-drop/off-home-thread/{shape}"), format!("task {id}: future dropped on a foreign thread")));
+        }
+        let created = g(&rec.obj.created);
+        let drops = g(&rec.obj.drops);
+        if created > 1 {
+            bad.push((format!("C04/harness/object-created-twice/{shape}"), format!("task {id}")));
+        }
+        if created == 1 && drops != 1 {
+            let what = if rec.finished.load(SeqCst) == 2 { "panic payload" } else { "output" };
+            bad.push((
+                format!("C04/output/{}/{shape}", if drops == 0 { "never-dropped" } else { "dropped-more-than-once" }),
+                format!(
+                    "task {id}: {what} dropped {drops} times in total (taken through the handle: {})",
+                    g(&rec.obj.taken)
+                ),
+            ));
+        }
+        if g(&rec.obj.nonsend_foreign_drops) != 0 {
+            bad.push((
+                format!("C04/output/non-send-output-dropped-off-home-thread/{shape}"),
+                format!(
+                    "task {id}: its `!Send` output (the JoinHandle is therefore not Send either) was dropped on a foreign \
+                     thread: the last task reference was a Waker released there and `Drop for Task` drops a result nobody \
+                     took on whichever thread that is"
+                ),
+            ));
+        }
+        let late = g(&rec.late_by);
+        if late != 0 {
+            bad.push((
+                format!("C04/starvation/fifo-bound-exceeded/{shape}"),
+                format!(
+                    "task {id} was hot for {late} tick(s) longer than 1 + floor(L/max_interval) (L = {} other live tasks \
+                     when it became hot in tick {}, max_interval {})",
+                    g(&rec.due_l),
+                    g(&rec.due_set_at),
+                    env.w.max_interval
+                ),
+            ));
+        }
+    }
+}
+
+pub(crate) fn end_state(rec: &TaskRec) -> &'static str {
+    let taken = rec.obj.taken.load(SeqCst) != 0;
+    match rec.finished.load(SeqCst) {
+        1 if taken => "ready-taken",
+        1 => "ready-dropped",
+        2 if taken => "panic-taken",
+        2 => "panic-dropped",
+        _ => "cancelled",
+    }
+}
+
+/// Counting waker for join handles.
+#[derive(Default)]
+pub(crate) struct FlagWaker {
+    pub wakes: AtomicU64,
+}
+
+impl Wake for FlagWaker {
+    fn wake(self: Arc<Self>) {
+        self.wakes.fetch_add(1, SeqCst);
+    }
+
+    fn wake_by_ref(self: &Arc<Self>) {
+        self.wakes.fetch_add(1, SeqCst);
+    }
+}
+
+pub(crate) fn any_payload_name(p: &Box<dyn Any + Send>) -> String {
+    p.downcast_ref::<&str>().map(|s| s.to_string()).or_else(|| p.downcast_ref::<String>().cloned()).unwrap_or_default()
+}
+
+// ---------------------------------------------------------------------------
+// main
+// ---------------------------------------------------------------------------
+
+pub fn main(args: &Args) {
+    let leg = args.str("leg", "native");
+    let mut rep = Report::from_args("C04", &leg, args);
+    if let Some(path) = args.get("replay") {
+        let text = std::fs::read_to_string(path).expect("replay file");
+        let v: Value = vcommon::serde_json::from_str(&text).expect("replay json");
+        let p = &v["program"];
+        let reps = args.usize("reps", p["reps"].as_u64().unwrap_or(1) as usize);
+        match p["kind"].as_str() {
+            Some("st") => match st::Prog::from_json(&p["prog"]) {
+                Some(prog) => {
+                    st::evaluate(&prog, &mut rep, &leg);
+                }
+                None => rep.inconclusive("replay: cannot parse single-thread program"),
+            },
+            Some("xt") => match xt::Prog::from_json(&p["prog"]) {
+                Some(prog) => {
+                    for i in 0..reps {
+                        let mut q = prog.clone();
+                        q.salt = q.salt.wrapping_add(i as u64 * 0x9E37);
+                        if xt::evaluate(&q, &mut rep, &leg) || rep.out_of_time() {
+                            break;
+                        }
+                    }
+                }
+                None => rep.inconclusive("replay: cannot parse cross-thread program"),
+            },
+            _ => rep.inconclusive("replay file has no c04 program (crash replays carry only stderr; re-run the recorded argv)"),
+        }
+        rep.finish();
+        return;
+    }
+    let mode = args.str("mode", "both");
+    let iters = args.iters(if cfg!(miri) { 60 } else { 3_000 }, if cfg!(miri) { 800 } else { 60_000 });
+    let base = Rng::new(args.seed()).fork(args.shard() + 1);
+    for _ in 0..(args.shard() * 7 + args.seed() % 5) {
+        std::thread::yield_now();
+    }
+    // share of single-thread programs (they are cheap and exact)
+    let st_pct = args.usize("st-pct", 40);
+    for i in 0..iters {
+        if rep.out_of_time() {
+            break;
+        }
+        let mut rng = base.fork(i as u64);
+        let single = match mode.as_str() {
+            "st" => true,
+            "xt" => false,
+            _ => rng.below(100) < st_pct,
+        };
+        if single {
+            let prog = st::gen_prog(&mut rng, args);
+            st::evaluate(&prog, &mut rep, &leg);
+        } else {
+            let prog = xt::gen_prog(&mut rng, args);
+            xt::evaluate(&prog, &mut rep, &leg);
+        }
+    }
+    rep.finish();
 }
